@@ -5,6 +5,7 @@ use simrt::Tape;
 use crate::gen::{self, Profile};
 use crate::gen2;
 use crate::gen3;
+use crate::gen4;
 use crate::plan::*;
 use crate::run::RunResult;
 
@@ -53,6 +54,10 @@ pub fn generate(prop: &str, _run: u64, t: &mut Tape) -> Scenario {
         "C12" => gen2::gen_cwin(t),
         "C13" => gen2::gen_evwin(t),
         "C14" => gen2::gen_ptwin(t),
+        "C15" => gen4::gen_src(t),
+        "C18" => gen4::gen_latency(t),
+        "C19" => gen4::gen_graph(t),
+        "C20" => gen4::gen_crash(t, _run % SITES_PER_JOB),
         "C16" => {
             if t.draw(2) == 0 {
                 gen2::gen_seq(t)
@@ -65,11 +70,24 @@ pub fn generate(prop: &str, _run: u64, t: &mut Tape) -> Scenario {
     }
 }
 
+/// C20 enumerates fault sites per job: run index = job * SITES_PER_JOB + site
+pub const SITES_PER_JOB: u64 = 54;
+
+/// the run index that seeds the workload tape (C20: all sites of one job share the workload)
+pub fn workload_run(prop: &str, run: u64) -> u64 {
+    if prop == "C20" && run < 1_000_000 {
+        run / SITES_PER_JOB
+    } else {
+        run
+    }
+}
+
 /// (quick, thorough) number of runs
 pub fn runs(prop: &str) -> (u64, u64) {
     match prop {
         "C04" => (1500, 30000),
         "C02" => (1500, 30000),
+        "C20" => (40 * SITES_PER_JOB, 800 * SITES_PER_JOB),
         _ => (2500, 50000),
     }
 }
